@@ -4,7 +4,7 @@ import ZChain.Model.BlockStore
 /-! Line driver for the block database / block store models (C26).
 
 Block database (one database per case, protocol phases creating → closed → opened):
-`new <klen> <0|1>` | `write <key> <content> <stored>` | `save` | `open` | `openmap` | `close` |
+`new <klen> <0|1>` | `recreate <klen> <0|1>` (closed phase: store again over the leftover files) | `write <key> <content> <stored>` | `save` | `open` | `openmap` | `close` |
 `read <key>` | `readall` | `keys` | `idx` | `dat` | `trunc idx|dat <n>` | `rmidx`
 (byte strings are lower-case hex, `-` = empty). An operation outside its phase answers `bad-op`
 (the Go worker applies the same rule), so does anything malformed.
@@ -52,6 +52,13 @@ def dbStep (d : DB) (ws : List String) : DB × String :=
     match kl.toNat?, c with
     | some k, "0" => if k ≤ 127 then (DB.create k false, "ok") else (d, "bad-op")
     | some k, "1" => if k ≤ 127 then (DB.create k true, "ok") else (d, "bad-op")
+    | _, _ => (d, "bad-op")
+  | ["recreate", kl, c] =>
+    -- a retry after a crash: NewBlockDB + Create over the files that are already there
+    if d.phase ≠ .closed then (d, "bad-op") else
+    match kl.toNat?, c with
+    | some k, "0" => if k ≤ 127 then (d.recreate k false, "ok") else (d, "bad-op")
+    | some k, "1" => if k ≤ 127 then (d.recreate k true, "ok") else (d, "bad-op")
     | _, _ => (d, "bad-op")
   | ["write", k, c, s] =>
     if d.phase ≠ .creating then (d, "bad-op") else
